@@ -2274,7 +2274,9 @@ class AnsiStr(str):
 
     def clear_formatting(self) -> 'AnsiStr':
         ''' Returns a new AnsiStr object with all formatting cleared. '''
-        return AnsiStr(self.base_str)
+        cpy = self._s.copy()
+        cpy.clear_formatting()
+        return AnsiStr(cpy)
 
     def __iter__(self) -> 'AnsiStr':
         ''' Iterates over each character of this AnsiStr '''
